@@ -164,6 +164,14 @@ Definition q_permutation (n r : brat) : res brat :=
   do nrf <- q_factorial (rat_add n (rat_neg r));
   rat_div nf nrf.
 
+(* classifier of a known defect: permutation never looks at r itself (only at
+   n and n - r), so a negative integer r is accepted: 5 nPr (-1) = 5!/6! *)
+Definition known_C10_npr_negative_r (r : brat) : bool :=
+  match simplify r with
+  | Ok s => (dval s =? 1) && rneg s && negb (nval s =? 0)
+  | _ => false
+  end.
+
 (* ModuloByZero -> EDivByZero; ModuloForPositiveInts -> EOther *)
 Definition q_modulo (a b : brat) : res brat :=
   if nval b =? 0 then Err EDivByZero
